@@ -1993,6 +1993,10 @@ class Executor:
         if c.closure:
             # free variables of a nested function: symbolic like parameters; a module / function of the enclosing scope is given as a value
             clos = {n: (t if isinstance(t, SV) else fresh(t, n)) for n, t in c.closure.items()}
+            for n, v in list(clos.items()):
+                # the nested function itself among its free variables (recursion): calls see the same symbolic environment
+                if v.ty.kind == "func" and isinstance(v.v, FuncD) and v.v.closure is c.closure:
+                    clos[n] = SV(FUNCT, FuncD(v.v.module, v.v.qualname, closure=clos))
             self.inputs.update({n: v for n, v in clos.items() if v.ty.kind != "func"})
             for v in clos.values():
                 if v.ty.kind == "func":
